@@ -10,6 +10,8 @@
 name: mbuff.show
 define: VERIF_MB_FMTSTUBS
 src: mbuff.c
+native: mbuff
+native_includes: mbuff.c
 enforce: spif_mbuff_show
 backend: sat
 tier: B
@@ -31,6 +33,7 @@ spif_charptr_t spiftool_safe_str(spif_charptr_t str, unsigned short len) { __CPR
 
 spif_str_t spif_mbuff_show(spif_mbuff_t self, spif_byteptr_t name, spif_str_t buff, size_t indent)
 __CPROVER_requires(MBUFF_INV(self) && self->len <= 64 && indent <= 4000 && VCSTR_FRESH(name, vg_n1))
+__CPROVER_requires(MB_WIT_SELF(self))
 __CPROVER_assigns()
 ;
 void harness(void)
